@@ -59,6 +59,7 @@ def step_facts(ex, alpha_p, hs):
 
 
 def setup_loop(ex, npol, holder):
+    ex.fast_ident = True        # identification attempts that numeric sampling contradicts get a short solver budget (verdicts stay the solver's)
     def havoc(ex_, env, ghost):
         A = env['A']
         k = next(ex_.fresh)
